@@ -235,7 +235,7 @@ def schema_space(tier):
         for chain in [()] + [(c,) for c in alphabet]:
             for flags in ({}, {"nullable": True}, {"unique": True}, {"nullable": True, "unique": True}):
                 for kind in ("series", "column", "index"):
-                    if kind != "series" and (flags or (len(chain) and quick and alphabet.index(chain[0]) % 3)):
+                    if kind != "series" and (flags or (len(chain) and quick and alphabet.index(chain[0]) % 3 and not chain[0]["k"].startswith("custom"))):
                         if not (kind == "index" and flags == {"unique": True} and not chain):
                             continue
                     spec = dict(_comp(dt, chain, **flags), kind=kind)
